@@ -175,7 +175,7 @@ def contaminated_by_scalar(tree, names=("SelfAdjoint", ), transparent=()):
     def visit(node, exposed):
         k = node["k"]
         here = exposed or k not in transparent
-        if here and (k in ("scale", "neg", "div", "rdiv", "smul") or (k == "prod" and any(c["k"] == "smul" for c in node.get("ch", [])))):
+        if here and k in ("scale", "neg", "div", "rdiv", "smul", "prod"):  # (a product may hold a scalar factor built by any child)
             try:
                 sub = IR.build(node)
             except Exception:
